@@ -21,8 +21,14 @@ def run_case(case, fake, mod):
     try:
         k = case["k"][0] / case["k"][1]
         tc.set_time_scale(k)
-        starts = []
+        starts, ref_starts = [], []
         cur = {"d": 0.0}
+        acc = {"paused": Fraction(0), "off": None}
+        kq = Fraction(case["k"][0], case["k"][1])
+
+        def ref_now():
+            """the reference system time: scale x raw time spent un-paused (same origin as the library's perf_counter)"""
+            return acc["off"] + kq * (Fraction(fake.now) - acc["paused"])
 
         class A(Agent):
             def setup(self):
@@ -32,6 +38,7 @@ def run_case(case, fake, mod):
 
             def step(self, observation):
                 starts.append(Fraction(tc.perf_counter()))
+                ref_starts.append(ref_now())
                 fake.now += cur["d"]          # the step body takes d of real time
                 return None
 
@@ -46,15 +53,24 @@ def run_case(case, fake, mod):
         offset = case["offset"][0] / case["offset"][1]
         inter = FixedIntervalInteraction.with_sleep_adjustor(A(), E(), interval, offset)
         inter.setup()
+        acc["off"] = Fraction(0)
         t0 = Fraction(tc.perf_counter())
+        acc["off"] = t0 - kq * (Fraction(fake.now) - acc["paused"])
         for t in case["ticks"]:
             p = t["pause"][0] / t["pause"][1]
             if p > 0:                          # a system pause takes effect at the loop guard
-                tc.pause(); fake.now += p; tc.resume()
+                tc.pause()
+                if t.get("save"):              # the pause of a state save: the clock's state is exported in the middle of it
+                    fake.now += p / 2; tc.state_dict(); fake.now += p / 2
+                else:
+                    fake.now += p
+                tc.resume()
+                acc["paused"] += Fraction(p)
             fake.now += t["eps"][0] / t["eps"][1]
             cur["d"] = t["dur"][0] / t["dur"][1]
             inter.step()
-        return {"t0": [t0.numerator, t0.denominator], "starts": [[s.numerator, s.denominator] for s in starts]}
+        return {"t0": [t0.numerator, t0.denominator], "starts": [[s.numerator, s.denominator] for s in starts],
+                "ref_starts": [[s.numerator, s.denominator] for s in ref_starts]}
     finally:
         for n, v in saved.items():
             setattr(ptime, n, v)
